@@ -113,6 +113,13 @@ func (m *memTable) Get(key []byte) (*kv.Entry, error) {
 	}
 	e := kv.EntryPool.Get().(*kv.Entry)
 	e.Key = key
+	if vs.Version != 0 && len(key) > 8 && vs.Version != kv.ParseTs(key) {
+		// The index returned an older version than the one asked for: hand out
+		// the key the entry is stored under, not the lookup key, so that callers
+		// (cloneEntry, the value-log GC) see the stored version as they do for
+		// entries served from tables.
+		e.Key = kv.KeyWithTs(kv.ParseKey(key), vs.Version)
+	}
 	e.Value = vs.Value
 	e.ExpiresAt = vs.ExpiresAt
 	e.Meta = vs.Meta
